@@ -179,6 +179,27 @@ int main(int argc, char **argv) {
         }
         st.mx("max_error_over_tolerance_x1e6", worst * 1e6);
         LIBV(gr_face_destroy(f));
+    } else if (part == "hashes") {
+        // one line per case: hash of the canonical dump; the orchestrator runs two builds (e.g. direct- and call-threaded
+        // interpreter, hooks on and off) with the same seeds and compares the lines
+        gr_face *f = LIB(gr_make_file_face(fontpath.c_str(), unsigned(a.geti("opt", 0))));
+        if (!f) { st.add("fonts_not_loaded"); st.print(); return 0; }
+        std::vector<uint32_t> rep = repertoire(f, 0x20000);
+        for (long k = 0; k < a.cases; ++k) {
+            if (!a.runs(k)) continue;
+            Rng r(a.case_seed(k));
+            CaseParams c = draw(r, f, rep, lines);
+            set_case(k, "hashes font=%s enc=%d dir=%d ppm=%g text=%s", fontpath.c_str(), 1 << c.enc, c.dir, c.ppm, cps_str(c.text, 20).c_str());
+            gr_font *font = c.ppm > 0 ? LIB(gr_make_font(c.ppm, f)) : nullptr;
+            gr_segment *s = shape(f, font, c);
+            std::string d = dump_seg(s, f, font);
+            printf("D H %ld %ld %016llx %zu %s\n", a.shard, k, (unsigned long long)fnv(d.data(), d.size()), d.size(), cps_str(c.text, 8).c_str());
+            st.add("segments");
+            if (s && c.text.size() >= 2) st.add("nontrivial");
+            if (s) LIBV(gr_seg_destroy(s));
+            if (font) LIBV(gr_font_destroy(font));
+        }
+        LIBV(gr_face_destroy(f));
     } else if (part == "pair") {
         std::string font2 = a.get("font2");
         unsigned opt = unsigned(a.geti("opt", 0));
